@@ -944,6 +944,8 @@ Error query_rw_info(Arch arch, const BaseInst& inst, const Operand_* operands, s
           if (operands[0].is_reg() && operands[1].is_reg()) {
             // Doesn't zero extend the destination.
             out->_operands[0]._extend_byte_mask = 0;
+            // The source cannot be replaced by memory as `movss|movsd xmm, mem` zeroes the rest of the destination.
+            rm_ops_mask &= ~uint32_t(0x2);
           }
         }
       }
